@@ -273,6 +273,59 @@ func mutateLengths(r *gen.RNG, f []byte, fm ref.FieldMap, emit func(string, []by
 			emit("propid", m)
 		}
 	}
+	// a property written twice (MQTT forbids it for most identifiers; a decoder
+	// meets it all the same): the copy carries the same value, a zero-length /
+	// zero value, or sits at the very end of the property section
+	{
+		var props []ref.Span
+		var sections []ref.Span
+		for _, s := range fm {
+			if s.Kind == "@prop" {
+				props = append(props, s)
+			}
+			if s.Kind == "@props" {
+				sections = append(sections, s)
+			}
+		}
+		for pi, ps := range props {
+			if pi >= 12 {
+				break
+			}
+			var sec *ref.Span
+			for i := range sections {
+				if sections[i].Off < ps.Off && ps.Off+ps.Len <= sections[i].Off+sections[i].Len {
+					sec = &sections[i]
+				}
+			}
+			if sec == nil {
+				continue
+			}
+			orig := f[ps.Off : ps.Off+ps.Len]
+			variants := [][]byte{append([]byte(nil), orig...)}
+			if ps.Len >= 3 { // identifier + a length-prefixed or fixed-width value: the zero form
+				z := []byte{orig[0], 0, 0}
+				if ps.Len == 5 && (orig[0] == 0x02 || orig[0] == 0x11 || orig[0] == 0x18 || orig[0] == 0x27) {
+					z = []byte{orig[0], 0, 0, 0, 0}
+				}
+				if orig[0] == 0x26 {
+					z = []byte{0x26, 0, 0, 0, 0}
+				}
+				variants = append(variants, z)
+			}
+			for _, v := range variants {
+				for _, at := range []int{ps.Off + ps.Len, sec.Off + sec.Len} { // right behind the original / at the end of the section
+					oldLen, w, _ := ref.DecodeVBI(f[sec.Off:])
+					var body []byte
+					body = append(body, f[h.HdrLen:sec.Off]...)
+					body = ref.AppendVBI(body, oldLen+uint32(len(v)))
+					body = append(body, f[sec.Off+w:at]...)
+					body = append(body, v...)
+					body = append(body, f[at:]...)
+					emit("dup-prop", ref.Reframe(f[0], body))
+				}
+			}
+		}
+	}
 	// a few random byte flips with the header intact
 	if len(f) > h.HdrLen {
 		for i := 0; i < 8; i++ {
